@@ -2,7 +2,7 @@
    Only statements closed by [exact]; the lemmas live in Proofs/Paging.v.
    Constants (defaultMaxMetadataBytes, filter names) are Generated/GC15.v,
    re-translated from registry/remote on every run. *)
-From Oras Require Import Base.Prelude Generated.GC15 Model.Paging Model.PagingUrl Proofs.Paging Proofs.PagingUrl.
+From Oras Require Import Base.Prelude Generated.GC15 Model.Paging Model.PagingUrl Proofs.Paging Proofs.PagingUrl Proofs.PagingFacts.
 From Coq Require Import Permutation Sorted.
 
 (* parseLink returns exactly the text between '<' and the first '>' whatever follows *)
@@ -559,3 +559,11 @@ Example C15_example_string_step :
     = NNext (b "/v2/repo/tags/list/~p") (b "token=p%3Bb") /\
   first_query (mkCfg KTags 3 0 []) [] (b "a b/c") = b "n=3&last=a+b%2Fc".
 Proof. vm_compute. repeat split. Qed.
+
+(* the syntactic facts about the Go sources the models assume (translator kind c15_srcfact) *)
+Theorem C15_source_facts :
+  c15_fact_link_header && c15_fact_link_resolve && c15_fact_setq_split && c15_fact_setq_cut &&
+  c15_fact_tags_clear_last && c15_fact_repos_clear_last && c15_fact_refs_nonempty &&
+  c15_fact_wrap_delivered && c15_fact_tagschema_clean && c15_fact_probe_contentlength &&
+  c15_fact_oci_last && c15_fact_oci_sort = true.
+Proof. exact (eq_refl true). Qed.
